@@ -327,9 +327,13 @@ def groups(tier, seed):
     if chunk:
         yield {'cases': list(chunk)}
         chunk.clear()
+    # names with an underscore glued to an operator
+    yield {'cases': [{'kind': 'compact-underscore', 'a': a, 'b': b} for a, b in (('line_count*2', 'line_count * 2'), ('line_count+1', 'line_count + 1'),
+                                                                                  ('2*line_count', '2 * line_count'), ('line_count%2', 'line_count % 2'),
+                                                                                  ('length(name)*line_count', 'length(name) * line_count'))]}
     # an expression on the right of a comparison, written without blanks
     yield {'cases': [{'kind': 'where-rhs', 'e': e, 'op': o} for e in ('2*3', '12/2', '14%8', 'size*1', '2*3+1', '(2*3)', '1+2*3', '2 * 3', '10-2*2', 'hardlinks*5',
-                                                                        '5 / 2', '7/2', 'size/2', '2030-2024', '20000-19995', '2024-size')
+                                                                        '5 / 2', '7/2', 'size/2', '2030-2024', '20000-19995', '2024-size', '2000-10', '2017-5', 'hardlinks_x' if False else '2000-1993')
                      for o in ('=', '!=', '>=', '<', 'gte', 'eq')]}
     # the shown value of an expression that also occurs in a WHERE arm which is skipped for some rows
     uf = [e for e in p if not any(w in e for w in ('contains', 'replace', '{', 'plus', 'mul')) and ('size' in e or 'hardlinks' in e or 'name' in e)]
@@ -378,6 +382,19 @@ def eval_group(env, group, tier):
             r = {'case': c, 'layer': kind + (':k=%d' % c['k'] if 'k' in c else '')}
             if kind == 'company':
                 outs.append(company(env, root, c, r, len(ents)))
+                continue
+            if kind == 'compact-underscore':
+                q = 'name, %s, %s where is_file = true into list' % (c['a'], c['b'])
+                o = env.run([q], cwd=root)
+                rows = o.rows(3) or []
+                r['nt'] = True
+                r['trans'] = len(rows)
+                bad = [x for x in rows if x[1] != x[2] or fnum(x[1]) is None]
+                if o.rc != 0 or o.err or not rows or bad:
+                    r.update(status='viol', cls='value:compact-name-with-underscore', sig=('compact_',), detail={'query': q, 'rows': (bad or rows)[:3], 'err': o.brief()['err']})
+                else:
+                    r.update(status='ok', sig=('compact_', c['a']))
+                outs.append(r)
                 continue
             if kind == 'where-rhs':
                 f = {'=': lambda a, b: a == b, 'eq': lambda a, b: a == b, '!=': lambda a, b: a != b, '>=': lambda a, b: a >= b, 'gte': lambda a, b: a >= b,
